@@ -51,15 +51,15 @@ theorem CSb_Photo_Partial_guard {b : ℝ} (h : Spec.CSb_Photo_Partial T Z shell 
   · exact h1
 
 /-- what `CSb_Photo_Partial(Z, shell, E, NULL)` contributes to a sum: its value, or 0 -/
-theorem partial_null (hs : kisselShapeB T Z shell = true) :
+theorem partial_null (hs : kisselGuard T Z shell E = true → kisselShapeB T Z shell = true) :
     ∃ s', Gen.CSb_Photo_Partial T Z shell E Slot.null = Except.ok (valOr0 (Spec.CSb_Photo_Partial T Z shell E), s') := by
-  have m := C02.site_spec_CSb_Photo_Partial T Z shell E Slot.null rfl hs
+  have m := C02.site_spec_CSb_Photo_Partial_of T Z shell E Slot.null rfl hs
   rcases Meets.cases m with ⟨v, hv, r⟩ | ⟨hf, e, _, _, r⟩ | hany
   · exact ⟨_, by rw [r, hv]; rfl⟩
   · refine ⟨Slot.null.withErr e, ?_⟩; rw [r, hf]; simp only [valOr0]; norm_num
   · exact absurd hany (CSb_Photo_Partial_ne_any T Z shell E)
 
-theorem photo_loop (hZ : 0 ≤ Z ∧ Z < 121) (hs : ∀ s : Nat, s < 31 → kisselShapeB T Z (s : Int) = true) :
+theorem photo_loop (hZ : 0 ≤ Z ∧ Z < 121) (hs : ∀ s : Nat, s < 28 → kisselShapeB T Z (s : Int) = true) :
     loopM (0 : Int) (31 : Int) (0.0 : ℝ) (fun shell st_3_in => do
           let a_4 ← rd2 "Electron_Config_Kissel" 121 31 T.Electron_Config_Kissel Z shell
           if (1.0e-6 : ℝ) < a_4 then do
@@ -81,7 +81,9 @@ theorem photo_loop (hZ : 0 ≤ Z ∧ Z < 121) (hs : ∀ s : Nat, s < 31 → kiss
   have r2 : rd2 "Electron_Config_Kissel" 121 31 T.Electron_Config_Kissel Z (k : Int) =
       Except.ok (T.Electron_Config_Kissel Z.toNat k) := by
     rw [C02.rd2_ok' _ 31 _ hZ (by omega)]; rfl
-  obtain ⟨s', hp⟩ := partial_null T Z (k : Int) E (hs k hk')
+  obtain ⟨s', hp⟩ := partial_null T Z (k : Int) E (fun hg => by
+    have := ((C02.kisselGuard_iff T Z (k : Int) E).1 hg).2.1
+    exact hs k (by omega))
   simp only [r2, bind_ok, hp, pure_eq_ok]
   split_ifs <;> rfl
 
@@ -91,7 +93,7 @@ include he
 
 /-- **CSb_Photo_Total = Σ_{occupied sub-shells} occupancy · CSb_Photo_Partial**, failing when the sum is 0 (no sub-shell
 of the element is excited at `E`) — the photo part of the Kissel total -/
-theorem photo_total_eq (hs : ∀ s : Nat, s < 31 → kisselShapeB T Z (s : Int) = true) :
+theorem photo_total_eq (hs : ∀ s : Nat, s < 28 → kisselShapeB T Z (s : Int) = true) :
     Meets (Gen.CSb_Photo_Total T Z E error) error (Spec.CSb_Photo_Total T Z E) := by
   unfold Gen.CSb_Photo_Total
   by_cases hZ : Z < 1 ∨ Z > 120
@@ -155,14 +157,14 @@ theorem hW_kissel' (h : weightOkB T (decide (0 ≤ T.NE_Photo_Total_Kissel Z.toN
   exact aw_of_weightOk T Z h hz (decide_eq_true hn)
 
 /-- **CS_Photo_Total = CSb_Photo_Total · N_A / A** with the occupancy-weighted sum as the barn value -/
-theorem cs_photo_total_eq' (hs : ∀ s : Nat, s < 31 → kisselShapeB T Z (s : Int) = true)
+theorem cs_photo_total_eq' (hs : ∀ s : Nat, s < 28 → kisselShapeB T Z (s : Int) = true)
     (hW : ∀ v, Spec.CSb_Photo_Total T Z E = .value v → Spec.AtomicWeight T Z ≠ .fails) :
     Meets (Gen.CS_Photo_Total T Z E error) error (Spec.CS_Photo_Total T Z E) :=
   cs_photo_total_eq T Z E error he _ (photo_total_eq T Z E error he hs)
     (fun v hv => CSb_Photo_Total_pos T Z E hv) (CSb_Photo_Total_ne_any T Z E) hW
 
 /-- **CS_Total_Kissel = CS_Photo_Total + CS_Rayl + CS_Compt** -/
-theorem cs_total_kissel_eq' (hs : ∀ s : Nat, s < 31 → kisselShapeB T Z (s : Int) = true)
+theorem cs_total_kissel_eq' (hs : ∀ s : Nat, s < 28 → kisselShapeB T Z (s : Int) = true)
     (hR : vecOkB (T.E_Rayl_arr Z.toNat) (T.CS_Rayl_arr Z.toNat) (T.CS_Rayl_arr2 Z.toNat) (T.NE_Rayl Z.toNat) = true)
     (hC : vecOkB (T.E_Compt_arr Z.toNat) (T.CS_Compt_arr Z.toNat) (T.CS_Compt_arr2 Z.toNat) (T.NE_Compt Z.toNat) = true)
     (hW : ∀ v, Spec.CSb_Photo_Total T Z E = .value v → Spec.AtomicWeight T Z ≠ .fails) :
@@ -171,7 +173,7 @@ theorem cs_total_kissel_eq' (hs : ∀ s : Nat, s < 31 → kisselShapeB T Z (s : 
     (fun v hv => CSb_Photo_Total_pos T Z E hv) (CSb_Photo_Total_ne_any T Z E) hR hC hW
 
 /-- **CSb_Total_Kissel = CS_Total_Kissel · A / N_A** -/
-theorem barn_twin_CSb_Total_Kissel' (hs : ∀ s : Nat, s < 31 → kisselShapeB T Z (s : Int) = true)
+theorem barn_twin_CSb_Total_Kissel' (hs : ∀ s : Nat, s < 28 → kisselShapeB T Z (s : Int) = true)
     (hR : vecOkB (T.E_Rayl_arr Z.toNat) (T.CS_Rayl_arr Z.toNat) (T.CS_Rayl_arr2 Z.toNat) (T.NE_Rayl Z.toNat) = true)
     (hC : vecOkB (T.E_Compt_arr Z.toNat) (T.CS_Compt_arr Z.toNat) (T.CS_Compt_arr2 Z.toNat) (T.NE_Compt Z.toNat) = true)
     (hW : ∀ v, Spec.CSb_Photo_Total T Z E = .value v → Spec.AtomicWeight T Z ≠ .fails) :
@@ -228,12 +230,12 @@ theorem cs_total_kissel_div0 {v : ℝ} (hb : Gen.CSb_Photo_Total T Z E error = E
 
 def cs_photo_total_full : Prop :=
   ∀ (T : Tables ℝ) (Z : Int) (E : ℝ) (error : Slot), error.isFull = false →
-    (∀ s : Nat, s < 31 → kisselShapeB T Z (s : Int) = true) →
+    (∀ s : Nat, s < 28 → kisselShapeB T Z (s : Int) = true) →
     Meets (Gen.CS_Photo_Total T Z E error) error (Spec.CS_Photo_Total T Z E)
 
 def cs_total_kissel_full : Prop :=
   ∀ (T : Tables ℝ) (Z : Int) (E : ℝ) (error : Slot), error.isFull = false →
-    (∀ s : Nat, s < 31 → kisselShapeB T Z (s : Int) = true) →
+    (∀ s : Nat, s < 28 → kisselShapeB T Z (s : Int) = true) →
     vecOkB (T.E_Rayl_arr Z.toNat) (T.CS_Rayl_arr Z.toNat) (T.CS_Rayl_arr2 Z.toNat) (T.NE_Rayl Z.toNat) = true →
     vecOkB (T.E_Compt_arr Z.toNat) (T.CS_Compt_arr Z.toNat) (T.CS_Compt_arr2 Z.toNat) (T.NE_Compt Z.toNat) = true →
     Meets (Gen.CS_Total_Kissel T Z E error) error (Spec.CS_Total_Kissel T Z E)
